@@ -377,6 +377,7 @@ class ExtGen:
     self.rng = rng
     self.cf = control_flow
     self.vars = []
+    self.partial_vars = []
     self.counts = {}
 
   def note(self, k):
@@ -428,6 +429,12 @@ class ExtGen:
       self.note("functools.partial")
       return rng.choice([f"functools.partial(l2.fa, {sub()})", f"functools.partial(l2.Ka, q={sub()})",
                          f"functools.partial(l2.fg, {sub()}, w={sub()})"])
+    if r < 0.86 and self.partial_vars:
+      # a partial over a partial held in a local (which is also used on its own elsewhere)
+      self.note("chained-partial")
+      pv = rng.choice(self.partial_vars)
+      kw = rng.choice(["v", "w"])
+      return rng.choice([f"functools.partial({pv}, {kw}={sub()})", f"[{pv}, functools.partial({pv}, {kw}={sub()})]"])
     if r < 0.88:
       self.note("arg_factory.partial")
       return f"arg_factory.partial(l2.fa, b=l2.Ka)"
@@ -463,6 +470,10 @@ class ExtGen:
         v = f"v{j}"
         lines += [f"  {v} = []", f"  for i{j} in range({rng.randint(0, 3)}):",
                   f"    {v}.append(l2.fa(i{j}, {self.atom()}))"]
+      elif r < 0.5:
+        v = f"v{j}"
+        lines.append(f"  {v} = functools.partial(l2.fg, {self.expr(1)})")
+        self.partial_vars.append(v)
       else:
         v = f"v{j}"
         lines.append(f"  {v} = {self.expr(0)}")
